@@ -40,6 +40,7 @@ Obs(ev) == [trig |-> Range(ev.trig), ready |-> ev.ready, cp |-> ev.cp, cg |-> ev
 Ledger0 == [now |-> 0, toks |-> <<>>, ins |-> <<>>, got |-> {}, nput |-> 0,
             last |-> "",           \* the last call that changed the contents: "put" / "get"
             acts |-> <<0>>,        \* fleet: activation instants of the reference schedule (timer starts at 0)
+            caps |-> {},           \* fleet: indices of acts that are capacity-triggered departures
             capNow |-> FALSE]      \* fleet: the held count reached capacity in the current instant
 
 ---------------------------------------------------------------------------
@@ -88,7 +89,7 @@ Step(Lg, ev) ==
          [L1 EXCEPT !.toks = Append(@, [kind |-> IF ev.op = "rp" THEN "put" ELSE "get", owner |-> ev.p,
                                         prio |-> ev.prio, flt |-> ev.flt, st |-> "live"])]
     [] ev.op = "put" /\ ev.res = "ok" ->
-         LET ins2 == Append(L1.ins, [id |-> ev.it, tag |-> ev.tag, at |-> ev.t, d |-> ev.d,
+         LET ins2 == Append(L1.ins, [id |-> ev.it, tag |-> ev.tag, at |-> ev.t, d |-> ev.d, na |-> Len(L1.acts),
                                      av |-> IF ev.it \in Range(ev.ready) THEN ev.t ELSE -1])
              full == Len(ins2) = c.cap
          IN [L1 EXCEPT !.ins = ins2, !.nput = @ + 1, !.last = "put",
@@ -96,7 +97,8 @@ Step(Lg, ev) ==
                        !.capNow = @ \/ full,
                        \* reaching capacity is an activation of its own, also in an instant that already had one
                        \* (the timer expired and sent a partial batch, then a put fills the fleet: it departs again at once)
-                       !.acts = IF c.kind = "fleet" /\ full THEN Append(@, ev.t) ELSE @]
+                       !.acts = IF c.kind = "fleet" /\ full THEN Append(@, ev.t) ELSE @,
+                       !.caps = IF c.kind = "fleet" /\ full THEN @ \cup {Len(L1.acts) + 1} ELSE @]
     [] ev.op = "get" /\ ev.res = "item" ->
          [L1 EXCEPT !.ins = SelectSeq(@, LAMBDA x : x.id # ev.ri), !.got = @ \cup {ev.ri}, !.last = "get",
                     !.toks = IF ev.tok \in 1..Len(@) THEN SetTok(@, ev.tok, "used") ELSE @]
@@ -204,22 +206,28 @@ T_C12_OrderS == Cfg(tid).kind = "slotted" =>
 
 (* C14  fleet: availability = first activation at or after loading + round trip *)
 Acts == L.acts
-FirstAct(at) == IF \E i \in 1..Len(Acts) : Acts[i] >= at
-                THEN (CHOOSE i \in 1..Len(Acts) : Acts[i] >= at /\ \A j \in 1..(i-1) : Acts[j] < at) ELSE 0
+ActTimes == {Acts[i] : i \in 1..Len(Acts)}
+MinOf(S) == CHOOSE t \in S : \A u \in S : t <= u
+\* the put of x itself, or a later put of the same instant, filled the fleet: x leaves in that instant
+MustNow(x) == \E i \in L.caps : i > x.na /\ Acts[i] = x.at
 T_C14_Avail == Cfg(tid).kind = "fleet" =>
-  \A i \in 1..Len(L.ins) : LET x == L.ins[i] rt == 2 * Cfg(tid).transit fa == FirstAct(x.at) IN
+  \A i \in 1..Len(L.ins) : LET x == L.ins[i] rt == 2 * Cfg(tid).transit
+                                 ge == {t \in ActTimes : t >= x.at}      \* activations at or after loading
+                                 gt == {t \in ActTimes : t > x.at} IN
      IF x.av >= 0
-     THEN \* available: its departure av - rt is the first activation at/after loading
-          \* (a load in the very instant of an activation may take that trip or the next)
+     THEN \* available: it left with the first activation at / after loading
+          \* (a load in the very instant of a timer activation may take that trip or the next)
           /\ x.av - rt >= x.at
-          /\ fa > 0
-          /\ \/ Acts[fa] = x.av - rt
-             \/ (Acts[fa] = x.at /\ fa < Len(Acts) /\ Acts[fa + 1] = x.av - rt)
+          /\ ge # {}
+          /\ IF MustNow(x) THEN x.av - rt = x.at
+             ELSE \/ x.av - rt = MinOf(ge)
+                  \/ (MinOf(ge) = x.at /\ gt # {} /\ x.av - rt = MinOf(gt))
      ELSE \* not yet available: not overdue
-          fa > 0 => \/ L.now < Acts[fa] + rt
-                    \/ (L.now = Acts[fa] + rt /\ ~e.q)
-                    \/ (Acts[fa] = x.at /\ (fa = Len(Acts) \/ L.now < Acts[fa + 1] + rt
-                                           \/ (L.now = Acts[fa + 1] + rt /\ ~e.q)))
+          ge # {} =>
+             IF MustNow(x) THEN L.now < x.at + rt \/ (L.now = x.at + rt /\ ~e.q)
+             ELSE \/ L.now < MinOf(ge) + rt
+                  \/ (L.now = MinOf(ge) + rt /\ ~e.q)
+                  \/ (MinOf(ge) = x.at /\ (gt = {} \/ L.now < MinOf(gt) + rt \/ (L.now = MinOf(gt) + rt /\ ~e.q)))
 T_C14_WaitBound == Cfg(tid).kind = "fleet" =>
   \A i \in 1..Len(L.ins) : LET x == L.ins[i] IN
      IF x.av >= 0 THEN x.av - x.at <= Cfg(tid).fdelay + 2 * Cfg(tid).transit
